@@ -179,13 +179,4 @@ theorem simple_strictMono {cq u v : Sym} {x x' y y' : Rat} (h : simpleDb.convert
 
 /-! ### non-vacuity: the hypotheses are met by real conversions, affine ones included -/
 
-example : poscDb.convert (Sym.ofString "length") (Sym.ofString "ft") (Sym.ofString "m") 1
-    = .ok (R 3048 10000) := by decide +kernel
-example : poscDb.convert (Sym.ofString "temperature") (Sym.ofString "degF") (Sym.ofString "degC") 212
-    = .ok 100 := by decide +kernel
-example : poscDb.convert (Sym.ofString "pressure") (Sym.ofString "psig") (Sym.ofString "Pa") 0
-    = .ok 101325 := by decide +kernel
-example : simpleDb.convert (Sym.ofString "length") (Sym.ofString "km") (Sym.ofString "cm") 2
-    = .ok 200000 := by decide +kernel
-
 end Barril
